@@ -115,6 +115,22 @@ func run(c *hlib.Ctx) {
 	for i := 0; i < c.N-n3+c.N/2; i++ {
 		chain2(c)
 	}
+	// the best-fit rotations of ARAP on meshes with subdivided planar faces (flat one-rings: the SVD
+	// leaves the sign of the third singular vectors open, half of the vertices take the reflection
+	// repair), on rigid images, mirror images and perturbed meshes.  (Last, so that the random streams
+	// of the loops above stay what they were.)
+	for i := 0; i < 24+c.N/10; i++ {
+		g := flatMesh3(c)
+		if g.m.NeedsRepair() || len(g.m.SingularVertices()) > 0 || g.m.NumTriangles() > 400 || strings.HasPrefix(g.label, "multi") {
+			c.Stat("gen3-rejected:"+g.label, 1)
+			continue
+		}
+		if nv := len(g.m.VertexSlice()); nv > 160 || nv < 4 {
+			continue
+		}
+		c.Stat("gen3:"+strings.SplitN(g.label, "(", 2)[0], 1)
+		emitArapRot(c, g)
+	}
 }
 
 // arcEps != 0: the epsilon the next forced EliminateColinear calls use (set by run for arc outlines).
